@@ -182,3 +182,4 @@ def run(ctx):
     idempotent_appliers(ctx, '4')
     replay_before_service(ctx, '6')
     shared.queue_discipline(ctx, '7')
+    shared.drop_table_idempotent(ctx, '9')     # replayed actions are idempotent: DropTable
